@@ -94,6 +94,14 @@ def run(chk, orch):
                                   "n_exp": 2, "exp_mode": "same", "supplementary": 0, "lowmapq": 0, "intergenic": 0, "mono": 0},
                          "opts": {"keep_tmp": True, "threads": 1}}},
                 dict(common.GOLDEN_CELL, threads=1, bufsize=8192)))
+    # ... and the same with an earlier run that was itself KILLED in the second stage (one chromosome already marked as processed)
+    wls.append(({"seed": 30, "n_chr": 2, "genes_per_chr": 2, "reads_per_iso": 2, "paralogs": 0, "novel": 1,
+                 "supplementary": 0, "lowmapq": 0, "intergenic": 0, "mono": 0},
+                {"pre": {"spec": {"seed": 31, "n_chr": 2, "genes_per_chr": 2, "reads_per_iso": 3, "paralogs": 0, "novel": 1,
+                                  "supplementary": 0, "lowmapq": 0, "intergenic": 0, "mono": 0},
+                         "opts": {"threads": 1},
+                         "fault": {"kind": "kill", "label_rx": r"_processed$", "nth": 0, "phase": "after"}}},
+                dict(common.GOLDEN_CELL, threads=1, bufsize=8192)))
     if not quick:
         wls += [
             ({"seed": 23, "n_chr": 2, "genes_per_chr": 2, "reads_per_iso": 3, "paralogs": 1, "n_exp": 2},
